@@ -33,6 +33,7 @@
 #include <fstream>
 #include <iostream>
 #include <map>
+#include <memory>
 #include <random>
 #include <regex>
 #include <sstream>
@@ -382,6 +383,43 @@ static double tol_of(const std::string &t) {
   throw std::runtime_error("unknown tolerance name " + t);
 }
 
+// one solver object with its logger and the option values the harness has set on it so far
+// (defaults of DavidsonSolver: tolerance normal, DPR, safe, max_search_space 0, iter_max 50, SYMM)
+static const std::string SEP = "\n@@";
+struct SolverObject {
+  Logger log;
+  DavidsonSolver ds;
+  std::string mode = "SYMM", corr = "DPR", upd = "safe", tol = "normal";
+  long mss = 0, itermax = 50;
+  SolverObject() : log(Log::Level::warning), ds(log) {
+    log.setMultithreading(false);  // collect messages in the logger's buffer
+    log.setCommonPreface(SEP);
+  }
+  void set(const std::string &what, const std::string &v) {
+    if (what == "corr") {
+      ds.set_correction(v);
+      corr = v;
+    } else if (what == "upd") {
+      ds.set_size_update(v);
+      upd = v;
+    } else if (what == "tol") {
+      ds.set_tolerance(v);
+      tol = v;
+    } else if (what == "itermax") {
+      ds.set_iter_max(std::stol(v));
+      itermax = std::stol(v);
+    } else if (what == "mode") {
+      ds.set_matrix_type(v);
+      mode = v;
+    } else if (what == "mss") {
+      ds.set_max_search_space(std::stol(v));
+      mss = std::stol(v);
+    } else {
+      throw std::runtime_error("unknown option " + what);
+    }
+  }
+};
+
 int main() {
   omp_set_num_threads(1);
   Eigen::setNbThreads(1);
@@ -390,7 +428,7 @@ int main() {
   std::cout.precision(17);
   std::string cached_key;
   Problem prob;
-  const std::string SEP = "\n@@";
+  std::unique_ptr<SolverObject> hobj;
   const std::regex re_iter(R"(\s(\d+)\s+(\d+)\s+\t\s*([0-9.]+)e([-+]\d+)\s+\t\s*([0-9.]+)% converged\s*$)");
   const std::regex re_conv(R"(Davidson converged after (\d+) iterations\.)");
   const std::regex re_warn(R"(Warning : Davidson\s+([0-9.]+)% converged after (\d+) iterations\.)");
@@ -404,10 +442,31 @@ int main() {
     std::string cmd;
     in >> cmd;
     try {
-      if (cmd != "solve") {
+      // histories on ONE solver object:  obj id=<h> | set <what>=<value> | hsolve id=.. fam=.. N=.. neigen=..
+      if (cmd == "obj") {
+        std::string tok;
+        in >> tok;
+        hobj.reset(new SolverObject());
+        std::cout << "{\"e\":\"obj\",\"id\":" << std::stol(tok.substr(tok.find('=') + 1)) << "}" << std::endl;
+        continue;
+      }
+      if (cmd == "set") {
+        std::string tok;
+        in >> tok;
+        auto eq = tok.find('=');
+        if (!hobj || eq == std::string::npos) throw std::runtime_error("bad set command");
+        const std::string what = tok.substr(0, eq), v = tok.substr(eq + 1);
+        hobj->set(what, v);
+        bool num = what == "itermax" || what == "mss";
+        std::cout << "{\"e\":\"set\",\"what\":" << jstr(what) << ",\"v\":" << (num ? v : jstr(v)) << "}" << std::endl;
+        continue;
+      }
+      if (cmd != "solve" && cmd != "hsolve") {
         std::cout << "err unknown command" << std::endl;
         continue;
       }
+      const bool fresh = cmd == "solve";
+      if (!fresh && !hobj) throw std::runtime_error("hsolve without obj");
       std::map<std::string, std::string> kv;
       std::string tok;
       while (in >> tok) {
@@ -421,10 +480,24 @@ int main() {
         return it->second;
       };
       auto I = [&](const char *k) -> long { return std::stol(S(k)); };
-      const long id = I("id"), N = I("N"), neigen = I("neigen"), mss = I("mss"), itermax = I("itermax"),
+      // a fresh object per `solve` (all options set from the command); `hsolve` uses the history's
+      // object as it is, the option values echoed in the begin record are the ones set so far
+      std::unique_ptr<SolverObject> fobj;
+      if (fresh) {
+        fobj.reset(new SolverObject());
+        fobj->set("corr", S("corr"));
+        fobj->set("upd", S("upd"));
+        fobj->set("tol", S("tol"));
+        fobj->set("itermax", S("itermax"));
+        fobj->set("mode", S("mode"));
+        if (I("mss") >= 0) fobj->set("mss", S("mss"));
+      }
+      SolverObject &ob = fresh ? *fobj : *hobj;
+      DavidsonSolver &ds = ob.ds;
+      const long id = I("id"), N = I("N"), neigen = I("neigen"), mss = ob.mss, itermax = ob.itermax,
                  sig = I("sig"), mf = I("mf"), var = I("var");
       const std::uint64_t seed = std::stoull(S("seed"));
-      const std::string mode = S("mode"), fam = S("fam"), corr = S("corr"), upd = S("upd"), tol = S("tol");
+      const std::string mode = ob.mode, fam = S("fam"), corr = ob.corr, upd = ob.upd, tol = ob.tol;
       const double tolv = tol_of(tol);
 
       std::string key = mode + "/" + fam + "/" + std::to_string(N) + "/" + std::to_string(var) + "/" + std::to_string(seed);
@@ -445,16 +518,6 @@ int main() {
                 << ",\"mf\":" << mf << ",\"var\":" << var << ",\"seed\":" << seed << "}" << std::endl;
 
       // ---- run the real solver -------------------------------------------------------------
-      Logger log(Log::Level::warning);
-      log.setMultithreading(false);  // collect messages in the logger's buffer
-      log.setCommonPreface(SEP);
-      DavidsonSolver ds(log);
-      ds.set_correction(corr);
-      ds.set_size_update(upd);
-      ds.set_tolerance(tol);
-      ds.set_iter_max(itermax);
-      ds.set_matrix_type(mode);
-      if (mss >= 0) ds.set_max_search_space(mss);
       std::string exc;
       try {
         if (mode == "SYMM") {
@@ -481,7 +544,7 @@ int main() {
         if (exc.empty()) exc = "exception";
       }
       std::ostringstream os;
-      os << log;
+      os << ob.log;
       std::string text = os.str();
 
       // ---- parse the solver's log -------------------------------------------------------------
